@@ -110,3 +110,14 @@ Example C03_RD_example :
   snapClosestPoints gRD (hotLevels gRD [(30675977, 31812405)]) (1172202820000000, 4401358980000000)
       (1172202820000000, 4401358980000000) 26 = [(1172202846875000, 4401359021875000)].
 Proof. vm_compute. repeat split; reflexivity. Qed.
+
+From Texel Require Import Index.ProofsGen.
+From Texel.Gen Require Import PointIndexGen.
+
+(** ** tie G2: getQuadrantExtentAndCentroid REGENERATED from pointindex.go on this run is the model's
+    [quadExtent] / [quadCentroid] (levels 0 .. deepest, non-negative resolution) *)
+Theorem C03_source_tie : forall g l x y, 0 <= gres g -> (l <= gdeep g)%nat ->
+  gen_getQuadrantExtentAndCentroid (ix_of g) (Z.of_nat l) x y (ext_tuple (gext g))
+  = (ext_tuple (quadExtent g l x y), quadCentroid g l x y).
+Proof. exact gen_getQuadrantExtentAndCentroid_spec. Qed.
+Print Assumptions C03_source_tie.
